@@ -171,7 +171,7 @@ def expectErr (c : Case) : Bool :=
   -- "Can't freeze a class with a custom __setattr__"
   (sAuto c && owns c "__setattr__" && sFrozen c) ||
   -- "__str__ can only be generated if a __repr__ exists"
-  (sStr c && !wantRepr c) ||
+  (sStr c && !wantRepr c && !owns c "__repr__") ||
   -- "Can't combine custom __setattr__ with on_setattr hooks"
   (sHooks c && sAuto c && owns c "__setattr__") ||
   -- "Invalid value for hash"
